@@ -40,23 +40,38 @@ def variants_of(task):
     f, _ = tv.load_program(p)
     ctx = tv.caller_ctx()
     out = []
+    crashed = []
+
+    def add(label, thunk):
+        from fpy2.strategies import TransformDeclined
+        try:
+            out.append((label, f, thunk(), (ctx, ctx)))
+        except TransformDeclined:
+            pass
+        except tv.TransformTimeout:
+            raise
+        except Exception as ex:  # noqa  a pass that crashes produces no program: recorded, not a change of result
+            crashed.append('%s: %r' % (label, ex))
     flags = ['enable_const_fold', 'enable_copy_prop', 'enable_dead_code_elim']
     for combo in itertools.product([False, True], repeat=3):
         if not any(combo):
             continue
         kw = dict(zip(flags, combo))
-        g = st.simplify(f, **kw)
-        out.append(('simplify(%s)' % ','.join(k.replace('enable_', '') for k, v in kw.items() if v), f, g, (ctx, ctx)))
-    out.append(('simplify(no-context-fold)', f, st.simplify(f, enable_const_fold_context=False), (ctx, ctx)))
-    out.append(('simplify(no-op-fold)', f, st.simplify(f, enable_const_fold_op=False), (ctx, ctx)))
+        add('simplify(%s)' % ','.join(k.replace('enable_', '') for k, v in kw.items() if v), lambda kw=kw: st.simplify(f, **kw))
+    add('simplify(no-context-fold)', lambda: st.simplify(f, enable_const_fold_context=False))
+    add('simplify(no-op-fold)', lambda: st.simplify(f, enable_const_fold_op=False))
     passes = {'cf': lambda a: ConstFold.apply(a), 'cp': lambda a: CopyPropagate.apply(a), 'dce': lambda a: DeadCodeEliminate.apply(a)}
-    for order in itertools.permutations(passes):
+
+    def chain(order):
         a = f.ast
         for k in order:
             a = passes[k](a)
-        out.append(('passes(%s)' % '>'.join(order), f, f.with_ast(a), (ctx, ctx)))
+        return f.with_ast(a)
+    for order in itertools.permutations(passes):
+        add('passes(%s)' % '>'.join(order), lambda order=order: chain(order))
     for k in passes:
-        out.append(('pass(%s)' % k, f, f.with_ast(passes[k](f.ast)), (ctx, ctx)))
+        add('pass(%s)' % k, lambda k=k: chain([k]))
+    variants_of.crashed = crashed
     # drop variants that produce a program already in the list
     seen = {}; uniq = []
     for v in out:
@@ -90,7 +105,13 @@ def run_task(task):
     p = next(q for q in corpus.P if q['name'] == task['prog'])
     f, _ = tv.load_program(p)
     changed = [v for v in vs if v[2].format() != v[1].format()]
+    if not vs:
+        return dict(paths=0, requires=0, cex=[], samples=[], witness={}, notes=['every variant crashed: %s' % getattr(variants_of, 'crashed', [])[:2]], extra={'transform_crashes': len(getattr(variants_of, 'crashed', []))})
     res = tv.run_joint(task, changed or vs[:1], task.get('tier', 'quick'))
+    cr = getattr(variants_of, 'crashed', [])
+    if cr:
+        res.setdefault('notes', []).append('transform crashed (no program produced): %s' % cr[0][:160])
+        res.setdefault('extra', {})['transform_crashes'] = len(cr)
     if changed:
         res['witness']['program-changed'] = res['witness'].get('program-changed', 0) + 1
     return res
